@@ -173,10 +173,31 @@ def known_findings():
     return json.load(open(p)).get("findings", [])
 
 
+def site_id(site):
+    """A crash site "file:line" named so that edits elsewhere in the file do not rename it:
+    file::enclosing fn::text of the source line (whitespace squeezed)#occurrence within the fn."""
+    try:
+        f, ln = site.rsplit(":", 1)
+        lines = open(os.path.join(REPO, f), encoding="utf-8", errors="replace").read().split("\n")
+        i = int(ln) - 1
+        text = " ".join(lines[i].split())
+        fn, start = "?", 0
+        for j in range(i, -1, -1):
+            m = re.search(r"\bfn\s+(\w+)", lines[j])
+            if m:
+                fn, start = m.group(1), j
+                break
+        # the k-th line with this text inside the function (identical unwrap lines are told apart)
+        k = sum(1 for j in range(start, i + 1) if " ".join(lines[j].split()) == text)
+        return "%s::%s::%s#%d" % (f, fn, text, k)
+    except (ValueError, IndexError, OSError):
+        return site
+
+
 def match_known(prop, key):
     """A violation is known iff a 'known' entry for the property has a regex matching its key."""
     for f in known_findings():
-        if f.get("status") == "known" and f.get("property") == prop and re.search(f["key"], key):
+        if f.get("status") == "known" and f.get("property") == prop and (f["key"] == key if f.get("exact") else re.search(f["key"], key)):
             return f
     return None
 
